@@ -59,3 +59,6 @@ def f6_grammar():
     return g
 
 F23_TEXT = 'grammar; extern { enum Tok { "a" => Tok::A(<#S#>) } } pub S: () = "a" => ();\n'
+
+F26_RULES = {"S": [["i", "s", "X", "d"], ["i", "s", "Y", "z"], ["i", "s", "Z", "m"], ["b", "X", "d"], ["b", "Y", "m"], ["b", "Z", "z"], ["X", "z"], ["Z", "m"]],
+             "X": [["n"], ["i", "Z"]], "Y": [["n"], ["n", "Y"]], "Z": [["n"], ["b", "i", "X"]]}
